@@ -83,10 +83,19 @@ static uint64_t h_arg_bits (MIR_type_t t, MIR_val_t v) { /* the bits of an argum
   case MIR_T_I32: case MIR_T_U32: return v.u & 0xffffffffu;
   case MIR_T_F: { uint32_t w; memcpy (&w, &v.f, 4); return w; }
   case MIR_T_LD: { uint64_t w[2] = {0, 0}; memcpy (w, &v.ld, 10); return w[0] ^ (w[1] << 48); }
+#ifdef H_PTR_ARG_BITS /* harnesses whose legs run on different copies of the memory (C04, C20): what of a pointer is comparable */
+  case MIR_T_P: return H_PTR_ARG_BITS (v.a);
+#endif
   default: return v.u;
   }
 }
 
+/* optional hooks (C04, C20): H_CALL_ENTER/H_CALL_LEAVE bracket a real call of a MIR callee (frame of the alloca model);
+   H_FF_BLK_BY_VALUE: copy block arguments into the callee's frame as interp() does with va_block_arg (alloca + copy) */
+#ifndef H_CALL_ENTER
+#define H_CALL_ENTER() ((void) 0)
+#define H_CALL_LEAVE() ((void) 0)
+#endif
 static int h_depth;
 static void h_run (int fid, MIR_val_t *args, MIR_val_t *results) {
   MIR_val_t frame[H_MAXREGS + 3];
@@ -106,6 +115,7 @@ static void h_ff_common (MIR_proto_t proto, void *addr, MIR_val_t *res_args) {
       const struct h_func_info *fi = &h_funcs[k];
       MIR_val_t vals[H_MAX_CALL_ARGS], res[8];
       H_ASSUME (h_depth < H_MAX_DEPTH); /* stated bound on call depth */
+      H_CALL_ENTER ();
       for (unsigned i = 0; i < fi->nargs; i++) {
         MIR_val_t a = res_args[nres + i];
         switch (fi->arg_types[i]) {
@@ -115,12 +125,24 @@ static void h_ff_common (MIR_proto_t proto, void *addr, MIR_val_t *res_args) {
         case MIR_T_U8: vals[i].i = (uint8_t) (uint32_t) a.u; break;
         case MIR_T_U16: vals[i].i = (uint16_t) (uint32_t) a.u; break;
         case MIR_T_U32: vals[i].i = (uint32_t) a.u; break;
-        default: vals[i] = a; break;
+        default:
+#ifdef H_FF_BLK_BY_VALUE
+          if (MIR_blk_type_p (fi->arg_types[i])) {
+            size_t sz = fi->arg_sizes[i];
+            char *c = alloca (sz);
+            for (size_t b = 0; b < sz; b++) c[b] = ((const char *) a.a)[b];
+            vals[i].a = c;
+            break;
+          }
+#endif
+          vals[i] = a;
+          break;
         }
       }
       h_depth++;
       h_run (k, vals, res);
       h_depth--;
+      H_CALL_LEAVE ();
       for (unsigned i = 0; i < fi->nres; i++) res_args[i] = res[i];
       return;
     }
